@@ -872,6 +872,11 @@ func (m *Manager) AddLocalForwardRoute(key, target string, metric uint16) bool {
 		return false
 	}
 
+	// Route advertisements carry key and target with one-byte lengths
+	if len(key) > MaxRoutePatternLen || len(target) > MaxRoutePatternLen {
+		return false
+	}
+
 	m.mu.Lock()
 	m.sequence++
 	seq := m.sequence
